@@ -6,6 +6,7 @@ fuel): no input can make them diverge or fall outside the result types — the "
 the differential compares outcome classes, with a Go panic as a distinct class, over arbitrary bytes.
 -/
 import FpVerif.Model.Hpack
+import FpVerif.Lemmas.Huffman
 set_option linter.unusedSimpArgs false
 set_option linter.unusedVariables false
 namespace Fp.C18
@@ -174,5 +175,157 @@ example : huffmanEncode (strBytes "www.example.com") = [0xf1, 0xe3, 0xc2, 0xe5, 
 example : (match huffmanDecode 0 [0xf1, 0xe3, 0xc2, 0xe5, 0xf2, 0x3a, 0x6b, 0xa0, 0xab, 0x90, 0xf4, 0xff] with
     | .ok b => some b | .error _ => none) = some (strBytes "www.example.com") := by
   decide +kernel
+
+/-! ### Huffman and string-literal round trips, for every byte string -/
+
+theorem codes_nonempty : (List.range 256).all (fun s => !(codeBits s).isEmpty) = true := by decide +kernel
+
+/-- up to seven ones from the root stay strictly inside the tree (the padding is a proper prefix of EOS and of no
+shorter code) -/
+theorem pad_stays_inside : (List.range 8).all (fun j => j == 0 || (HTree.walk huffTree (List.replicate j true)).isNode) = true := by
+  decide +kernel
+
+theorem code_walk (c : UInt8) : HTree.walk huffTree (codeBits c.toNat) = .leaf c.toNat ∧ codeBits c.toNat ≠ [] := by
+  have hc : c.toNat ∈ List.range 256 := List.mem_range.mpr c.toNat_lt
+  have h1 := List.all_eq_true.mp huffman_tree_correct _ hc
+  have h2 := List.all_eq_true.mp codes_nonempty _ hc
+  refine ⟨by simpa using h1, ?_⟩
+  intro h; rw [h] at h2; simp at h2
+
+theorem huffWalk_symbols (maxLen : Nat) (rest : List Bool) :
+    ∀ (s acc : Bytes), (maxLen = 0 ∨ acc.length + s.length ≤ maxLen) →
+      huffWalk maxLen huffTree [] acc (s.flatMap (fun c => codeBits c.toNat) ++ rest) = huffWalk maxLen huffTree [] (acc ++ s) rest := by
+  intro s
+  induction s with
+  | nil => intro acc _; simp
+  | cons c r ih =>
+    intro acc hm
+    simp only [List.flatMap_cons, List.append_assoc]
+    obtain ⟨hw, hne⟩ := code_walk c
+    rw [huffWalk_word maxLen c.toNat _ _ huffTree [] acc hne hw (by
+      intro ⟨h0, hl⟩
+      rcases hm with h | h
+      · exact h0 h
+      · simp only [List.length_cons] at h; omega)]
+    have hc : UInt8.ofNat c.toNat = c := by simp
+    rw [hc, ih (acc ++ [c]) (by
+      rcases hm with h | h
+      · exact Or.inl h
+      · right; simp only [List.length_append, List.length_cons, List.length_nil] at h ⊢; omega)]
+    simp
+
+/-- HUFFMAN ROUND TRIP: for EVERY byte string (any bytes, any length), decoding what `AppendHuffmanString` produced
+returns the string — under every length limit that admits it. -/
+theorem huffman_roundtrip (maxLen : Nat) (s : Bytes) (hm : maxLen = 0 ∨ s.length ≤ maxLen) :
+    huffmanDecode maxLen (huffmanEncode s) = .ok s := by
+  unfold huffmanDecode huffmanEncode
+  rw [bytesBits_bitsToBytes _ _ (Nat.le_refl _)]
+  unfold padTo8
+  rw [huffWalk_symbols maxLen _ s [] (by simpa using hm)]
+  simp only [List.nil_append]
+  apply huffWalk_pad
+  · rfl
+  · simp only [List.length_nil]; omega
+  · intro j hj1 hj
+    have hj8 : j ∈ List.range 8 := List.mem_range.mpr (by omega)
+    have := List.all_eq_true.mp pad_stays_inside j hj8
+    have hj0 : (j == 0) = false := by simp; omega
+    simpa [hj0] using this
+
+set_option maxRecDepth 8192 in
+theorem or80_low (b : UInt8) : (b ||| 0x80).toNat % 128 = b.toNat % 128 ∧ (b ||| 0x80).toNat ≥ 128 := by
+  have h : ∀ n, n < 256 → (UInt8.ofNat n ||| 0x80).toNat % 128 = n % 128 ∧ (UInt8.ofNat n ||| 0x80).toNat ≥ 128 := by
+    decide +kernel
+  have := h b.toNat b.toNat_lt
+  simpa using this
+
+theorem toBitsAux_length (v k : Nat) : (toBitsAux v k).length = k := by
+  induction k with
+  | zero => rfl
+  | succ k ih => simp [toBitsAux, ih]
+
+theorem bitsToBytes_length : ∀ (n : Nat) (bits : List Bool), bits.length ≤ n → (bitsToBytes bits).length = (bits.length + 7) / 8 := by
+  intro n
+  induction n with
+  | zero =>
+    intro bits h
+    have : bits = [] := List.eq_nil_of_length_eq_zero (by omega)
+    subst this; rw [bitsToBytes]; simp
+  | succ n ih =>
+    intro bits h
+    by_cases he : bits = []
+    · subst he; rw [bitsToBytes]; simp
+    · rw [bitsToBytes]
+      simp only [he, dite_false, List.length_cons]
+      have hpos : 0 < bits.length := List.length_pos_iff.mpr he
+      rw [ih (bits.drop 8) (by simp only [List.length_drop]; omega)]
+      simp only [List.length_drop]
+      omega
+
+theorem huffLen_eq (s : Bytes) : (huffmanEncode s).length = huffmanEncodeLength s := by
+  unfold huffmanEncode huffmanEncodeLength
+  rw [bitsToBytes_length _ _ (Nat.le_refl _)]
+  congr 2
+  induction s with
+  | nil => rfl
+  | cons c r ih =>
+    simp only [List.flatMap_cons, List.length_append, List.map_cons, List.sum_cons, ih]
+    congr 1
+    unfold codeBits; rw [toBitsAux_length]
+
+theorem appendVarInt7_head (i : Nat) : ∃ b r, appendVarInt 7 i = b :: r ∧ b.toNat < 128 := by
+  unfold appendVarInt
+  by_cases h : i < 2 ^ 7 - 1
+  · refine ⟨UInt8.ofNat i, [], by simp [h], ?_⟩
+    rw [u8_ofNat_toNat i (by omega)]; omega
+  · exact ⟨UInt8.ofNat (2 ^ 7 - 1), appendVarIntCont 10 (i - (2 ^ 7 - 1)), by simp [h], by decide⟩
+
+theorem readVarInt7_or80 (b : UInt8) (r : Bytes) : readVarInt 7 ((b ||| 0x80) :: r) = readVarInt 7 (b :: r) := by
+  simp only [readVarInt, (or80_low b).1]
+
+/-- STRING-LITERAL ROUND TRIP: for every byte string `s` (any bytes; the encoder picks Huffman or raw by length) followed
+by any bytes `rest`, `readString` consumes exactly what `appendHpackString` wrote and `decodeString` returns `s`,
+under every string-length limit that admits `s`. -/
+theorem string_roundtrip (maxStrLen : Nat) (s rest : Bytes) (hs : s.length < 2 ^ 62)
+    (hm : maxStrLen = 0 ∨ s.length ≤ maxStrLen) :
+    ∃ u, readString maxStrLen (appendString s ++ rest) = .ok (u, rest) ∧ decodeString maxStrLen u = .ok s := by
+  unfold appendString
+  by_cases hh : huffmanEncodeLength s < s.length
+  · simp only [hh, if_true]
+    obtain ⟨b, r, hbr, hb⟩ := appendVarInt7_head (huffmanEncodeLength s)
+    have hrt := varint_roundtrip 7 (huffmanEncodeLength s) (huffmanEncode s ++ rest) (by omega) (by omega)
+    rw [hbr] at hrt ⊢
+    simp only [List.cons_append, List.append_assoc] at hrt ⊢
+    refine ⟨{ isHuff := true, b := huffmanEncode s }, ?_, ?_⟩
+    · simp only [readString, readVarInt7_or80, hrt]
+      have h1 : ¬ (maxStrLen ≠ 0 ∧ huffmanEncodeLength s > maxStrLen) := by
+        intro ⟨h0, hl⟩; rcases hm with h | h
+        · exact h0 h
+        · omega
+      have h2 : ¬ ((huffmanEncode s ++ rest).length < huffmanEncodeLength s) := by
+        rw [List.length_append, huffLen_eq]; omega
+      simp only [h1, h2, if_false]
+      have h3 : (b ||| 0x80).toNat ≥ 128 := (or80_low b).2
+      rw [← huffLen_eq, List.take_left, List.drop_left]
+      simp only [ge_iff_le] at h3
+      simp only [ge_iff_le, h3, decide_true]
+    · simp only [decodeString, Bool.not_true, Bool.false_eq_true, if_false, huffman_roundtrip maxStrLen s hm]
+  · simp only [hh, if_false]
+    obtain ⟨b, r, hbr, hb⟩ := appendVarInt7_head s.length
+    have hrt := varint_roundtrip 7 s.length (s ++ rest) (by omega) hs
+    rw [hbr] at hrt ⊢
+    simp only [List.cons_append, List.append_assoc] at hrt ⊢
+    refine ⟨{ isHuff := false, b := s }, ?_, ?_⟩
+    · simp only [readString, hrt]
+      have h1 : ¬ (maxStrLen ≠ 0 ∧ s.length > maxStrLen) := by
+        intro ⟨h0, hl⟩; rcases hm with h | h
+        · exact h0 h
+        · omega
+      have h2 : ¬ ((s ++ rest).length < s.length) := by rw [List.length_append]; omega
+      simp only [h1, h2, if_false]
+      rw [List.take_left, List.drop_left]
+      have : ¬ b.toNat ≥ 128 := by omega
+      simp [this]
+    · simp [decodeString]
 
 end Fp.C18
